@@ -43,3 +43,9 @@ claim("C09",
       "Static: the set of state transitions that exist in both keepers (every writer of WorkSpace.state and of the per-state indexes, reconstructed as delete-old/set-new/store triples with their dominating membership guard) equals the documented table; every state effect of concurrently runnable code holds stateLock for writing; stop/remove/delete clear the plotter queue before any effect; exactly one plotter goroutine and only it calls Plot; the miner asks for SFMining and GetProofs offers only spaces passing the flag filter on the same state field that Info reports. Right level: the property quantifies over all histories and plotter interleavings; the extractor enumerates every transition that can ever execute.",
       "Trusted: go/ssa, the documented table as frozen from engine.go, single-threadedness before Start. NOT decided: liveness, that the popped queue item is the plotting space, linearisation of unlocked state reads in proof queries.",
       "DESIGN.md §4 C09")
+
+claim("C15",
+      "edge-cut dominance of rejection/never-exceed tests + provenance of directory and shortfall values + constant evaluation",
+      "Decides the rejection, placement, reuse-first and never-exceed STRUCTURE only: the minimum-size test dominates all work; every creation lies behind the allow flag and the success edge of a free-disk check of the shortfall; per-path fill/check/creation use the same requested directory which reaches the plot file path; generate runs only after an unfinished fill over the indexed spaces and continues from its total; selection/creation lie behind the comparison with the target for the very bit length used; smallest usable bit length = chain minimum.",
+      "Trusted: go/ssa, PlotSize monotone. NOT decided: the arithmetic (exact totals, shortfall < smallest plot, exact counts) and persistence of the selection across restart — value facts.",
+      "DESIGN.md §4 C15")
